@@ -156,8 +156,42 @@ def teval(t: Term, env: dict):
             raise Unknown(f"idx: {e}")
     if op == "meth:to_bytes":
         return ev(a[0]).to_bytes(*[ev(x) for x in a[1:]])
-    if op == "meth:ljust":
-        return ev(a[0]).ljust(*[ev(x) for x in a[1:]])
+    if op in ("meth:ljust", "meth:rjust", "meth:zfill", "meth:center"):
+        return getattr(ev(a[0]), op[5:])(*[ev(x) for x in a[1:]])
+    if op in ("call:struct.pack", "call:struct.calcsize", "call:struct.Struct") or (
+            op in ("meth:pack", "attr:size") and a and isinstance(a[0], App) and a[0].op == "call:struct.Struct"):
+        import struct as _struct
+
+        def flat(xs):
+            out_ = []
+            for x in xs:
+                if isinstance(x, Const) and isinstance(x.v, tuple) and x.v[:1] == ("site",):
+                    continue
+                if isinstance(x, App) and x.op == "star" and len(x.args) == 1:
+                    out_.extend(list(ev(x.args[0])))
+                else:
+                    out_.append(ev(x))
+            return out_
+
+        def portable(args):
+            # native byte order / alignment ('@', '=' or no prefix) depends on the machine the code runs on: not a value
+            if not (args and isinstance(args[0], (str, bytes)) and args[0][:1] in ("<", ">", "!", b"<", b">", b"!")):
+                raise Unknown("struct format in native byte order: host dependent")
+            return args
+        try:
+            if op == "call:struct.pack":
+                return _struct.pack(*portable(flat(a)))
+            if op == "call:struct.calcsize":
+                return _struct.calcsize(*portable(flat(a)))
+            if op == "call:struct.Struct":
+                return _struct.Struct(*portable(flat(a)))
+            if op == "attr:size":
+                return ev(a[0]).size
+            return ev(a[0]).pack(*flat(a[1:]))
+        except Unknown:
+            raise
+        except Exception as e:
+            raise Unknown(f"{op}: {e}")
     if op.startswith("meth:") and a and not (isinstance(a[0], Const)):
         try:
             r0 = ev(a[0])
